@@ -183,7 +183,11 @@ impl LuaTypeDecl {
         }
 
         let enum_member_owner = LuaMemberOwner::Type(self.get_id());
-        let enum_members = db.get_member_index().get_members(&enum_member_owner)?;
+        // sorted: the member map is a hash map, and the order of the union is visible in
+        // rendered types
+        let enum_members = db
+            .get_member_index()
+            .get_sorted_members(&enum_member_owner)?;
 
         let mut union_types = Vec::new();
         if self.is_enum_key() {
